@@ -28,13 +28,41 @@ Theorem C20_host_foreign_old_untouched : forall w r, foreign (old w) = true -> o
 Proof. exact host_run_foreign_old. Qed.
 Print Assumptions C20_host_foreign_old_untouched.
 
-(* Rotation: an empty/uftrace DIR is kept as DIR.old (replacing only a DIR.old that was
-   itself empty/uftrace data or absent) and the run succeeds. *)
-Theorem C20_rotation : forall w r t, dir w = Some t -> can_remove (Some t) = true -> foreign (old w) = false ->
+(* DIR.old "in the way" ([in_the_way]: it exists and is not a real directory holding uftrace data or nothing - a foreign
+   directory, a plain file, ANY symbolic link, also one to uftrace data elsewhere): it is never removed, replaced or
+   changed by any sequence of runs, whatever DIR is - a directory or a symbolic link to one. *)
+Theorem C20_old_in_the_way_untouched : forall rs w, in_the_way (old w) = true -> old (record_runs true w rs) = old w.
+Proof. exact old_in_the_way_forever. Qed.
+Print Assumptions C20_old_in_the_way_untouched.
+
+(* ... and a run that would have to rotate over it fails without changing anything. *)
+Theorem C20_refused_when_old_in_the_way : forall w r t, dir w = Some t -> can_remove (Some t) = true ->
+  in_the_way (old w) = true -> record_run true w r = (w, Error).
+Proof. exact run_refused. Qed.
+Print Assumptions C20_refused_when_old_in_the_way.
+
+(* Rotation: an empty/uftrace DIR (or a symbolic link to one: the link itself moves) is kept as DIR.old (replacing only a
+   DIR.old that was itself a real directory with uftrace data or nothing in it, or absent) and the run succeeds. *)
+Theorem C20_rotation : forall w r t, dir w = Some t -> can_remove (Some t) = true -> in_the_way (old w) = false ->
   let '(w', res) := record_run true w r in
   res = OK /\ old w' = Some t /\ dir w' = populate (r_extra r) (fresh (r_opts r)).
 Proof. exact run_rotates. Qed.
 Print Assumptions C20_rotation.
+Theorem C20_rotation_example :
+  record_run true {| dir := Some udata; old := Some (Dir []) |} r0 = ({| dir := fresh []; old := Some udata |}, OK) /\
+  record_run true {| dir := Some ULink; old := Some (Dir []) |} r0 = ({| dir := fresh []; old := Some ULink |}, OK).
+Proof. split; [exact rotation_example|exact link_rotation_example]. Qed.
+Print Assumptions C20_rotation_example.
+
+(* The code as found left the protection of DIR.old to rename(): enough when DIR is a directory (rename fails on a file,
+   a link or a non-empty directory), not when DIR is a symbolic link to uftrace data - rename() then silently replaced
+   a foreign FILE or link named DIR.old.  Repaired in /repo (create_directory refuses first). *)
+Theorem C20_link_legacy_refuted :
+  foreign (old w_link) = true /\ in_the_way (old w_link) = true /\
+  old (fst (record_run false w_link {| r_opts := []; r_extra := [] |})) = Some ULink /\
+  record_run true w_link {| r_opts := []; r_extra := [] |} = (w_link, Error).
+Proof. exact legacy_link_replaces_file. Qed.
+Print Assumptions C20_link_legacy_refuted.
 
 (* DIR changes only if it was absent, empty or uftrace data. *)
 Theorem C20_replaced_only_if_owned : forall w r,
@@ -49,7 +77,7 @@ Theorem C20_create_directory_spec : forall opts w,
   | None => ({| dir := fresh opts; old := old w |}, OK)
   | Some t =>
       if can_remove (Some t)
-      then (if foreign (old w) then (w, Error) else ({| dir := fresh opts; old := Some t |}, OK))
+      then (if in_the_way (old w) then (w, Error) else ({| dir := fresh opts; old := Some t |}, OK))
       else (w, Error)
   end.
 Proof. exact create_spec. Qed.
